@@ -16,6 +16,7 @@ import traceback
 
 ROOT = os.path.dirname(os.path.dirname(os.path.abspath(__file__)))
 sys.path.insert(0, ROOT)
+OUT = os.environ.get("VERIF_OUT", ROOT)  # where evidence/ and replays/ are written (scratch runs on mutants set this)
 
 from pyvc import smt  # noqa: E402
 from pyvc.source import REPO, NotFound  # noqa: E402
@@ -215,7 +216,7 @@ def main(argv=None):
         if r.get("status") in ("crash", "timeout"):
             defects.append(f"bounded stand-in {b['script']}: {r.get('status')} {r.get('stderr', '')[-800:]}")
     # ---- 5. violations, known findings, replays
-    os.makedirs(os.path.join(ROOT, "replays"), exist_ok=True)
+    os.makedirs(os.path.join(OUT, "replays"), exist_ok=True)
     violations, known_lines = [], []
     groups = collections.OrderedDict()
     for o in refuted:
@@ -241,7 +242,7 @@ def main(argv=None):
             native = run_replay(rp, payload, a.repo)
             payload["native"] = native
         n_rep += 1
-        rpath = os.path.join(ROOT, "replays", f"{prop}-{n_rep}.json")
+        rpath = os.path.join(OUT, "replays", f"{prop}-{n_rep}.json")
         json.dump(payload, open(rpath, "w"), indent=1, default=str)
         if native and native.get("reproduced") is False and native.get("model_concrete"):
             defects.append(f"counter-model for {unit}/{clause} is concrete but the real code agrees with the contract (encoding wrong?) replay={rpath}")
@@ -259,7 +260,7 @@ def main(argv=None):
                     known_lines.append(line)
                 continue
             n_rep += 1
-            rpath = os.path.join(ROOT, "replays", f"{prop}-{n_rep}.json")
+            rpath = os.path.join(OUT, "replays", f"{prop}-{n_rep}.json")
             json.dump({"property": prop, "obligation": f"{prop}/bounded:{r['script']}/{f.get('clause', 'bounded')}", "bounded": True, "failure": f, "replayer": r.get("replayer"), "repo": a.repo}, open(rpath, "w"), indent=1, default=str)
             violations.append(f"VIOLATION property={prop} replay={rpath} bounded={r['script']} case={str(f.get('case', ''))[:120]}")
             if len(violations) >= 5:
@@ -303,8 +304,8 @@ def main(argv=None):
         "assumptions": assumptions + spec.get("assumptions", []),
         "wall_s": round(wall, 2), "violations": len(violations),
     }
-    os.makedirs(os.path.join(ROOT, "evidence"), exist_ok=True)
-    json.dump(ev, open(os.path.join(ROOT, "evidence", f"{prop}.json"), "w"), indent=1, default=str)
+    os.makedirs(os.path.join(OUT, "evidence"), exist_ok=True)
+    json.dump(ev, open(os.path.join(OUT, "evidence", f"{prop}.json"), "w"), indent=1, default=str)
     # ---- 7. verdict
     for line in known_lines:
         print(line)
